@@ -5,6 +5,7 @@ import (
 	"go/token"
 	"go/types"
 	"sort"
+	"strconv"
 
 	"golang.org/x/tools/go/ssa"
 )
@@ -264,6 +265,44 @@ func runC03(r *Run) {
 	r.Borrow("C19", map[string]string{"C19.read": "C03.typeread"})
 	// ---- what the builder writes must decode again: Decode's reject conditions are exactly the framing's
 	r.Borrow("C02", map[string]string{"C02.guards": "C03.decodeguards"})
+
+	// ---- Equal agrees with content, not with history
+	eqr := r.Rule("C03.equal", "Message.Equal and the functions it calls never compare a slice with nil: a Message without attributes is Equal to the decode of its own bytes whether its list is nil (fresh) or empty (reused)", 2)
+	checkEqualNil(r, eqr)
+	eqr.Done()
+
+	// ---- a decoded message satisfies the invariant the write side relies on
+	if cl := p.buildClosures(); cl.DecodeM != nil {
+		rl := r.Rule("C03.rawlen", "on every success path Decode cuts Raw to exactly 20 + declared length (so len(Raw) = 20 + Length holds for every message the building operations start from)", 1)
+		checkDecodeRawLen(r, rl, le, cl.DecodeM, rawF)
+		rl.Done()
+	}
+
+	// ---- every attribute type Add can write is stored unchanged by Decode
+	ti := r.Rule("C03.typeident", "the attribute-type translation applied by Decode is the identity on every type that Add can write", 1)
+	if compat := p.Fn("compatAttrType"); compat == nil {
+		ti.Fail("compatAttrType", "not found")
+	} else {
+		r.Analysed(compat)
+		tab, def, ok := switchTable(compat)
+		if !ok || def != "identity" {
+			ti.Violation(compat, compat.Pos(), "translation table", "cannot extract the table or the default is not the identity: undecided")
+		}
+		var keys []string
+		for k := range tab {
+			keys = append(keys, k)
+		}
+		sort.Strings(keys)
+		ti.Instance("compatAttrType", true, map[string]interface{}{"non_identity_entries": len(tab)})
+		for _, k := range keys {
+			if tab[k] != k && tab[k] != "identity" {
+				kv, _ := strconv.ParseInt(k, 0, 64)
+				ov, _ := strconv.ParseInt(tab[k], 0, 64)
+				ti.Violation(compat, compat.Pos(), fmt.Sprintf("%#04x -> %#04x", kv, ov), fmt.Sprintf("Add writes attribute type %#04x as given, Decode stores it as %#04x: decoding the raw bytes does not yield the attribute held in the struct (Equal is false, Get/Contains of %#04x fail after a round trip)", kv, ov, kv))
+			}
+		}
+	}
+	ti.Done()
 
 	// ---- re-encoding keeps the attribute list in step with the bytes
 	en := r.Rule("C03.encode", "WriteAttributes re-adds the saved attributes into the same backing array it restores afterwards: the list is truncated with a two-index reslice of the saved list (no capacity clamp, no fresh list), so the entries Add wrote (lengths, views into the new Raw) are the ones visible after Encode", 1)
@@ -810,5 +849,117 @@ func checkStaleViews(r *Run, rc *RuleCtx, fns []*ssa.Function, grow *ssa.Functio
 			}
 		})
 		rc.Instance(fnName(fn), true, map[string]int{"byte_writes_into_Raw": n, "growth_points": len(grows)})
+	}
+}
+
+// checkEqualNil: Message.Equal (and what it calls) must not tell a nil slice from an empty one - which of
+// the two a Message without attributes holds depends on its history (Reset/Decode truncate with [:0]),
+// not on its content.
+func checkEqualNil(r *Run, rc *RuleCtx) {
+	p := r.P
+	eq := p.Meth("Message", "Equal")
+	if eq == nil {
+		rc.Fail("Message.Equal", "not found")
+		return
+	}
+	cl := p.CG().Closure([]*ssa.Function{eq}, func(f *ssa.Function) bool { return p.isLibFn(f) })
+	n := 0
+	for _, fn := range cl {
+		r.Analysed(fn)
+		eachInstr(fn, func(b *ssa.BasicBlock, i int, in ssa.Instruction) {
+			bo, ok := in.(*ssa.BinOp)
+			if !ok || (bo.Op != token.EQL && bo.Op != token.NEQ) {
+				return
+			}
+			var other ssa.Value
+			switch {
+			case isNilConst(bo.Y):
+				other = bo.X
+			case isNilConst(bo.X):
+				other = bo.Y
+			default:
+				return
+			}
+			if _, isSl := other.Type().Underlying().(*types.Slice); !isSl {
+				return
+			}
+			n++
+			rc.Violation(fn, instrPos(bo), exprDepth(bo, 0), "Equal distinguishes a nil slice from an empty one: a reused Message without attributes (empty list) is not Equal to the decode of its own bytes into a fresh Message (nil list), although their content is the same")
+		})
+		rc.Instance(fnName(fn)+"|no nil test of a slice", true, map[string]string{"fn": fnName(fn)})
+	}
+}
+
+// checkDecodeRawLen: on every success path Decode leaves Raw cut to exactly the declared message,
+// Raw = buf[:20+size] - the invariant len(Raw) = 20 + Length that the whole write side (header
+// rewrite, integrity and fingerprint setters hashing "the message") relies on.
+func checkDecodeRawLen(r *Run, rc *RuleCtx, le *linEval, dm *ssa.Function, rawF *types.Var) {
+	p := r.P
+	r.Analysed(dm)
+	idx := errorResultIndex(dm)
+	if idx < 0 {
+		rc.Fail("Decode", "no error result")
+		return
+	}
+	// the declared size: u16 at [2:4) of Raw
+	var sizeSite *wireSite
+	sites := wireSites(le, dm)
+	for i := range sites {
+		s := &sites[i]
+		if s.Kind == "Uint16" && valueIsLoadOfField(s.Root, rawF) {
+			if lo, hi, ok := s.constRange(); ok && lo == 2 && hi == 4 {
+				sizeSite = s
+			}
+		}
+	}
+	if sizeSite == nil {
+		rc.Fail("declared size", "the 16-bit length field read at Raw[2:4) was not found in Decode: undecided")
+		return
+	}
+	want := linExpr{C: 20, Terms: map[string]int64{}}.add(le.Eval(sizeSite.Val), 1)
+	cuts := map[ssa.Instruction]bool{}
+	for _, a := range fieldAccesses(dm, rawF) {
+		st, ok := a.Instr.(*ssa.Store)
+		if !ok || a.Kind != "store" {
+			continue
+		}
+		root, lo, hi := le.window(st.Val)
+		if !valueIsLoadOfField(root, rawF) || hi == nil {
+			continue
+		}
+		if c, isC := lo.isConst(); !isC || c != 0 {
+			continue
+		}
+		if hi.equal(want) {
+			cuts[st] = true
+		}
+	}
+	nSucc, nBad := 0, 0
+	var bad *ssa.Return
+	witness := ""
+	q := &PathQuery{P: p, Fn: dm}
+	q.Step = func(in ssa.Instruction, deferred bool, st uint64, c *PathCtx) (uint64, bool) {
+		if cuts[in] {
+			return st | 1, false
+		}
+		return st, false
+	}
+	q.AtReturn = func(ret *ssa.Return, st uint64, c *PathCtx) {
+		if c.NilState(ret.Results[idx]) == -1 {
+			return
+		}
+		nSucc++
+		if st&1 == 0 {
+			nBad++
+			if bad == nil {
+				bad = ret
+				witness = c.Witness(dm, ret)
+			}
+		}
+	}
+	q.Run()
+	rc.Instance(fnName(dm)+"|Raw cut to the declared message", true, map[string]int{"success_paths": nSucc, "cut_sites": len(cuts)})
+	if bad != nil {
+		rc.ViolationPath(dm, instrPos(bad), "Raw keeps bytes beyond the declared message", "Decode succeeds without cutting Raw to 20 + declared length: bytes that follow the message in the buffer stay in Raw, so len(Raw) != 20 + Length; the integrity and fingerprint setters then hash those foreign bytes (the message they produce fails its own check) and a header rewrite leaves them behind the attributes", witness)
 	}
 }
